@@ -17,6 +17,21 @@
 (*   StopsReading  C14  a streaming pipeline with --take never pulls a     *)
 (*                      value once skip+take rows exist                    *)
 (*   Terminates    C14  (Live configuration: unbounded source, fairness)   *)
+(* and, on the call log of the machine (the calls the jawk_verif hook      *)
+(* records in the code; MC_Pipe_calls.cfg):                                *)
+(*   WellNested    calls are properly bracketed and a stage only ever      *)
+(*                 calls its successor; the reader only calls the head     *)
+(*   StartsFirst   the run begins with the start() cascade, head to tail   *)
+(*   CompleteDiscipline  every stage is completed exactly once, after the  *)
+(*                 last row it is handed - except the stages behind a      *)
+(*                 group / merge stage, which are never completed (the     *)
+(*                 code's Grouper / Merger do not forward complete())      *)
+(*   HeadStops     no row enters the chain after the head answered Break   *)
+(*   BreakPropagates  set / split / filter / select / unique answer Break  *)
+(*                 at once when their successor does                       *)
+(*   LimiterLatched  once the limiter answered Break it answers Break to   *)
+(*                 every later row without handing it on                   *)
+(*   PrintedAreLogged  the rows handed to the printer are the output       *)
 (***************************************************************************)
 EXTENDS CoreExpr, TLC, Json
 
@@ -24,7 +39,9 @@ CONSTANTS Family, MaxRows, Live,
           DevLimiterNoComplete, DevPopOldest, DevTruncAll, DevSwallowBreak, DevSplitLast, DevSortBreakStops, DevSortEmptyNoComplete,
           DevSpaceCountsKeyless
 
-P == INSTANCE Pipeline WITH Ev <- CoreEv
+P == INSTANCE Pipeline WITH Ev <- CoreEv, LogCalls <- FALSE
+\* the same machine, recording every call across a stage boundary (the protocol theorems below; the state graph is that of P)
+PL == INSTANCE Pipeline WITH Ev <- CoreEv, LogCalls <- TRUE
 
 \* ---- names and expressions
 nK1 == <<107, 49>>   nK2 == <<107, 50>>   nG == <<103>>   nF == <<102>>   nID == <<105, 100>>
@@ -139,6 +156,47 @@ StopsReading == P!Streaming(cfg) /\ cfg.take # -1 /\ phase = "reading" => RowsSo
 \* no value is pulled after a Break
 BreakEndsReading == st.dec = "Break" => phase # "reading"
 Terminates == <>(phase = "done")
+
+\* ---- the call protocol
+Ch == PL!Chain(cfg)
+Lg == PL!StartLog(Ch) \o PL!MachineRun(cfg, input).st.log
+IsEntry(e) == e.ev \in {"start", "process", "complete"}
+RetOf(ev) == CASE ev = "start" -> "started" [] ev = "process" -> "processed" [] ev = "complete" -> "completed"
+RECURSIVE Nest(_, _, _)
+Nest(lg, k, stack) ==
+  IF k > Len(lg) THEN stack = <<>>
+  ELSE LET e == lg[k] IN
+       IF IsEntry(e)
+       THEN /\ e.i = (IF stack = <<>> THEN 1 ELSE stack[Len(stack)].i + 1)
+            /\ e.k = Ch[e.i].k
+            /\ Nest(lg, k + 1, Append(stack, e))
+       ELSE /\ stack # <<>> /\ stack[Len(stack)].i = e.i /\ RetOf(stack[Len(stack)].ev) = e.ev
+            /\ Nest(lg, k + 1, SubSeq(stack, 1, Len(stack) - 1))
+WellNested == Done => Nest(Lg, 1, <<>>)
+StartsFirstOn(lg) == /\ Len(lg) >= 2 * Len(Ch)
+                     /\ \A j \in 1..Len(Ch) : lg[j].ev = "start" /\ lg[j].i = j /\ lg[2 * Len(Ch) + 1 - j].ev = "started" /\ lg[2 * Len(Ch) + 1 - j].i = j
+                     /\ \A k \in (2 * Len(Ch) + 1)..Len(lg) : lg[k].ev \notin {"start", "started"}
+                     /\ lg[Len(Ch)].n = Len(cfg.selects) * (IF cfg.group.k = "none" THEN 1 ELSE 0)       \* the titles the printer is started with
+StartsFirst == Done => LET lg == Lg IN StartsFirstOn(lg)
+At(lg, ev, i) == {k \in 1..Len(lg) : lg[k].ev = ev /\ lg[k].i = i}
+CompleteDisciplineOn(lg) == \A i \in 1..Len(Ch) :
+                              LET behind == \E j \in 1..(i - 1) : Ch[j].k \in {"grp", "mrg"} IN
+                              /\ Cardinality(At(lg, "complete", i)) = (IF behind THEN 0 ELSE 1)
+                              /\ \A c \in At(lg, "complete", i), q \in At(lg, "process", i) : q < c
+CompleteDiscipline == Done => LET lg == Lg IN CompleteDisciplineOn(lg)
+HeadStops == Done => LET lg == Lg IN \A b \in At(lg, "processed", 1) : lg[b].res = "break" => \A q \in At(lg, "process", 1) : q < b
+LimIdx == IF \E i \in 1..Len(Ch) : Ch[i].k = "lim" THEN CHOOSE i \in 1..Len(Ch) : Ch[i].k = "lim" ELSE 0
+LimiterLatched == Done /\ LimIdx # 0 =>
+                    LET lg == Lg IN
+                    \A b \in At(lg, "processed", LimIdx) : lg[b].res = "break" =>
+                       \A q \in At(lg, "process", LimIdx) : q > b => lg[q + 1].ev = "processed" /\ lg[q + 1].i = LimIdx /\ lg[q + 1].res = "break"
+\* the stages that hand a row on (set, split, filter, select, unique) answer Break as soon as their successor does
+BreakPropagates == Done => LET lg == Lg IN
+                     \A k \in 1..(Len(lg) - 1) :
+                        lg[k].ev = "processed" /\ lg[k].res = "break" /\ lg[k].i > 1 /\ Ch[lg[k].i - 1].k \in {"set", "split", "filter", "select", "uniq"}
+                        => lg[k + 1].ev = "processed" /\ lg[k + 1].i = lg[k].i - 1 /\ lg[k + 1].res = "break"
+PrintedAreLogged == Done => LET ps == SelectSeq(Lg, LAMBDA e : e.ev = "process" /\ e.i = Len(Ch)) IN
+                            P!SameRows([k \in 1..Len(ps) |-> ps[k].row], st.out)
 
 Replay == Done => PrintT("REPLAY " \o ToJson([cfg |-> cfg, input |-> input, out |-> st.out, pulled |-> pulled]))
 =============================================================================
